@@ -106,6 +106,17 @@ func (r *Relay) CountLogs(msg string) int {
 	return r.Logs.FilterMessage(msg).Len()
 }
 
+// Exited reports whether the manager's Run has returned (e.g. because a service failed to start).
+func (r *Relay) Exited() bool {
+	select {
+	case ok := <-r.done:
+		r.done <- ok
+		return true
+	default:
+		return false
+	}
+}
+
 // BeginStop cancels the manager's context (what SIGTERM does) and returns immediately.
 func (r *Relay) BeginStop() { r.cancel() }
 
